@@ -35,8 +35,8 @@ ASSUMPTIONS = [
     'encoding names are compared literally after lower-casing, except BOM results which are compared as codecs (utf_16_le == utf-16-le)',
     'XML declarations are written without white space around "=" (the sniffer is documented as "not overly exact")',
 ]
-MIN_EVENTS = {'quick': {'evaluations': 8000, 'rows.bytes': 3000, 'oracle.streampos': 200, 'rows.after-history': 5000},
-              'thorough': {'evaluations': 8000, 'rows.bytes': 3000, 'oracle.streampos': 2000}}
+MIN_EVENTS = {'quick': {'evaluations': 8000, 'rows.bytes': 3000, 'oracle.streampos': 200, 'rows.after-history': 5000, 'rows.other-log-level': 20000},
+              'thorough': {'evaluations': 8000, 'rows.bytes': 3000, 'oracle.streampos': 2000, 'rows.other-log-level': 20000}}
 
 MEDIA = [
     None, '', 'application/xml', 'APPLICATION/XML', 'application/xml-dtd', 'application/xml-external-parsed-entity',
@@ -63,6 +63,10 @@ METAS = [
     ('two', '<meta http-equiv="Content-Type" content="text/html; charset=koi8-r"><meta http-equiv="Content-Type" content="text/html; charset=utf-8">', 'koi8-r'),
     ('other-meta', '<meta name="x" content="text/html; charset=utf-8">', None),
     ('empty', '<meta http-equiv="Content-Type" content="text/html; charset=">', None),
+    # round 8: a meta element that names another media type and no charset (the media-type default is the transport's)
+    ('xhtml-nocharset', '<meta http-equiv="Content-Type" content="application/xhtml+xml">', None),
+    ('textxml-nocharset', '<meta http-equiv="content-type" content="text/xml">', None),
+    ('css-nocharset', '<meta http-equiv="Content-Type" content="text/css; x=y">', None),
 ]  # fmt: skip
 BODIES = ['<html><head>%s</head><body>x</body></html>', '%s']
 
@@ -96,9 +100,17 @@ def same_codec(a, b):
 NULLLOG = logging.getLogger('verif-encutils-null')
 NULLLOG.addHandler(logging.NullHandler())
 NULLLOG.propagate = False
+# round 8: the caller's log at other levels (what is reported must not depend on who listens); index 0 is the log used so far
+LOGS = [NULLLOG]
+for _lv in (logging.DEBUG, logging.ERROR, logging.CRITICAL):
+    _l = logging.getLogger('verif-encutils-null-%d' % _lv)
+    _l.addHandler(logging.NullHandler())
+    _l.propagate = False
+    _l.setLevel(_lv)
+    LOGS.append(_l)
 
 
-def run_row(ctx, encutils, row, record=True, poison=None):
+def run_row(ctx, encutils, row, record=True, poison=None, lognum=0):
     media, charset, xmlname, xml, metaname, meta, metacs, body, as_bytes = row
     doc = xml + (body % meta)
     has_response = media is not None
@@ -113,7 +125,9 @@ def run_row(ctx, encutils, row, record=True, poison=None):
     arg = doc.encode('latin-1') if as_bytes else doc
     resp = Resp(media, charset) if has_response else None
     case = {'kind': 'row', 'media': media, 'charset': charset, 'doc': doc, 'bytes': as_bytes, 'meta_charset': metacs,
-            'xml': xmlname, 'meta': metaname, 'body': body}
+            'xml': xmlname, 'meta': metaname, 'body': body, 'lognum': lognum}
+    if lognum:
+        ctx.count('rows.other-log-level')
     ctx.count('evaluations')
     ctx.count('rows.bytes' if as_bytes else 'rows.text')
     if poison is not None:
@@ -128,7 +142,7 @@ def run_row(ctx, encutils, row, record=True, poison=None):
         except Exception:
             pass
     try:
-        info = encutils.getEncodingInfo(resp, arg, log=NULLLOG)
+        info = encutils.getEncodingInfo(resp, arg, log=LOGS[lognum])
     except Exception as e:
         feats = []
         ctx.violation('table.exception', case, {'tb': core.short_tb(e), 'expected': exp}, features=feats, site=core.raise_site(e))
@@ -274,6 +288,8 @@ def run_worker(ctx):
     n = 0
     for i, row in ctx.share(rows()):
         run_row(ctx, encutils, row)
+        if i % 2 == 1:
+            run_row(ctx, encutils, row, lognum=1 + (i // 2) % 3)
         if i % 3 == 0:
             rng = ctx.rng('poison', i)
             run_row(ctx, encutils, row, poison=rng.sample(POISON, rng.randint(1, 2)))
@@ -290,7 +306,7 @@ def replay(ctx, case):
         doc = case['doc']
         # re-split is not needed: run_row rebuilds doc from parts, so pass it through as xml part
         row = (case['media'], case['charset'], case.get('xml', 'x'), doc, case.get('meta', 'x'), '', case.get('meta_charset'), '%s', case['bytes'])
-        run_row(ctx, encutils, row, poison=case.get('history'))
+        run_row(ctx, encutils, row, poison=case.get('history'), lognum=case.get('lognum', 0))
     elif kind == 'sniff':
         fp = io.StringIO(case['doc'])
         fp.seek(case['pos'])
